@@ -273,6 +273,8 @@ class Normalizer:
             m = self.prog.find_method(outer.cls, fn.attr)
             if m is None or m is outer or m.name in ctx['stack'] or m.kind not in ('method', 'static'):
                 return None
+            if outer.kind == 'class' and m.kind != 'static':
+                return None       # cls.<method>(...) is an unbound call
             if not m.name.startswith('_'):
                 return None       # public methods are interface, not helpers
             if m.module is not outer.module:
@@ -1169,7 +1171,7 @@ class Normalizer:
         stored_names = {n.id for n in ast.walk(fn) if isinstance(n, ast.Name) and isinstance(n.ctx, (ast.Store, ast.Del))}
         closures = {k: _Closure(v, f) for k, v in closures.items() if counts[k] == 1 and k not in stored_names and k not in params}
         ctx = {'outer': f, 'locals': local, 'stack': frozenset([f.name]), 'used': set(), 'closures': closures,
-               'self': params[0] if params and f.cls is not None and f.kind in ('method', 'getter', 'setter') else None}
+               'self': params[0] if params and f.cls is not None and f.kind in ('method', 'getter', 'setter', 'class') else None}
         if ctx['self'] and any(isinstance(n, ast.Name) and n.id == ctx['self'] and isinstance(n.ctx, ast.Store)
                                for n in ast.walk(fn)):
             ctx['self'] = None
